@@ -333,6 +333,8 @@ def fallback(token):
 @descriptor('counter-style', wants_base_url=True)
 def symbols(tokens, base_url):
     """``symbols`` descriptor validation."""
+    if not tokens:
+        return
     values = []
     for token in tokens:
         if token.type in ('string', 'ident'):
